@@ -57,7 +57,8 @@ Alphabet == ModUuidReqs \cup ModOtherReqs \cup CreateReqs \cup DeleteReqs
 \* The decision table: predicted result class ("ok" / "refused") of a request.
 L2Result(r) ==
   IF r.op \in {"modify", "batch"} THEN
-       IF r.attr = "other" THEN "ok"
+       IF r.target = "builtin" THEN "refused"                         \* access layer: built-in entries are not user-modifiable
+       ELSE IF r.attr = "other" THEN "ok"
        ELSE IF r.val = "illtyped" THEN "refused"                      \* schema validation of the modify list
        ELSE IF r.kind = "assert" THEN (IF r.val = "same" THEN "ok" ELSE "refused")   \* assert changes nothing
        ELSE "refused"                                                 \* Base::pre_modify: SystemProtectedAttribute
